@@ -193,6 +193,12 @@ def run(ctx):
     # observe every distinct state through the public API (re-execute its shortest history)
     cases, paths = [], []
     ids = list(range(1, len(g["nodes"]) + 1))
+    if not ctx.quick and len(ids) > 3000:   # thorough: all states of the full-alphabet levels up to a cap + a sample
+        n_l = sum(1 for n in ids if len(ex.path_to(g, n)) <= L)
+        head = ids[:n_l] if n_l <= 2400 else ids[:400] + sorted(ctx.rng.sample(ids[400:n_l], 2000))
+        tail = ids[n_l:]
+        ids = head + sorted(ctx.rng.sample(tail, min(600, len(tail))))
+        ctx.extra["states_observed"] = f"{len(ids)} of {len(g['nodes'])} (seeded sample)"
     if ctx.quick and len(ids) > 260:   # quick tier: the 60 shallowest states + a seeded sample of the rest
         n_l = sum(1 for n in ids if len(ex.path_to(g, n)) <= L)     # states of the full-alphabet levels come first (BFS)
         tail = ids[n_l:]
@@ -207,9 +213,12 @@ def run(ctx):
         cases.append(observe(s, ctx.rng))
         paths.append(path)
         ctx.case(key=("state", n), nontrivial=len(g["nodes"][n - 1]["reg"]) >= 2)
-    for v in ctx.judge("J_DofLayout", cases, CLAUSES, consts=dict(Grids=fx.grid_consts(), DofTypes=fx.DOF_TYPES)):
-        i = v["case"] - 1
-        ctx.violation(v["clause"], dict(history=paths[i], observed=cases[i]), f"after history {paths[i]}")
+    B = 400   # judge in batches: every case holds the full owner table, projections and round trips
+    for b0 in range(0, len(cases), B):
+        for v in ctx.judge("J_DofLayout", cases[b0:b0 + B], CLAUSES, consts=dict(Grids=fx.grid_consts(), DofTypes=fx.DOF_TYPES),
+                           tag=f"judge{b0}", timeout=1800):
+            i = b0 + v["case"] - 1
+            ctx.violation(v["clause"], dict(history=paths[i], observed=cases[i]), f"after history {paths[i]}")
     # conformance of the histories with the mechanism model
     gfile = ctx.datafile("graph.json", g)
     m, cf = tlc.gen(ctx.work / "trace", "MC_T_DofLayout", "T_DofLayout", consts(ndt, ndom, max_vars), spec="TSpec",
